@@ -207,6 +207,15 @@ def run(ctx, model_ok):
     for lang in ["xx", "", "EN", "tr", "de"]:
         for t in ["1 + 2", "", "hello", "5 usd", "jan 5", "{TEXT:a}", "10 days"]:
             cases.append(([], lang, t))
+    # names written as PATTERN FIELDS in front of '=' (legal text): every field kind and every configured word group x values of
+    # several kinds x later lines that hold numbers, times, dates, money, percentages and durations — the variable substitution
+    # must terminate and every line must get its slot, whatever such a "name" then matches
+    groups_ = list(C.json.load(open(C.REPO + "/src/json/config.json", encoding="utf-8")).get("type_group", {}).keys())
+    for k_ in ["NUMBER", "TEXT", "MONEY", "PERCENT", "DATE", "TIME", "MONTH", "DURATION", "DATE_TIME", "TIMEZONE", "GROUP", "DYNAMIC_TYPE"] + groups_:
+        for val_ in ["5", "10:30", "1 jan 2020", "5 usd", "10%", "2 hours", "abc", "3 km"]:
+            follow = rng.sample(["1 + 2\n7", "12:45", "x = 3 * 4\nx", "5 usd + 1", "3 days", "2 jan 2021", "20%", "8", "10:30 + 1 hour", "4 km to m"], 3)
+            for f_ in follow:
+                cases.append(([], rng.choice(["en", "en", "tr"]), f"{{{k_}:a}} = {val_}\n{f_}"))
     # the extreme zones of the table and of the GMT syntax against each other: literals in one extreme zone evaluated under a
     # default zone at the other end (offset differences of a day and more), two zones on one line
     far_w, far_e = ["NUT", "SST", "HAST", "GMT-11", "GMT-12", "GMT-12:30"], ["LINT", "NZDT", "TKT", "GMT+14", "GMT+13:45", "GMT+12:30"]
